@@ -256,7 +256,8 @@ theorem run_append_some {s : TState} {a b : List (Nat × Ev)} {s' : TState} :
 
 /-- induction over accepted schedules, from the left end (the history grows at the right) -/
 theorem run_induction {init : TState} {P : List (Nat × Ev) → TState → Prop} (h0 : P [] init)
-    (hstep : ∀ pre s t e s', run init pre = some s → P pre s → TStep s t e s' → P (pre ++ [(t, e)]) s') :
+    (hstep : ∀ pre s t e s', run init pre = some s → P pre s → TStep s t e s' →
+      run init (pre ++ [(t, e)]) = some s' → P (pre ++ [(t, e)]) s') :
     ∀ sched s, run init sched = some s → P sched s := by
   have aux : ∀ sched pre s0 s, run init pre = some s0 → P pre s0 → run s0 sched = some s → P (pre ++ sched) s := by
     intro sched
@@ -271,7 +272,7 @@ theorem run_induction {init : TState} {P : List (Nat × Ev) → TState → Prop}
       | some s1 =>
         simp only [hs] at hr
         have h1 : run init (pre ++ [(t, e)]) = some s1 := run_snoc.2 ⟨s0, hpre, hs⟩
-        have := ih (pre ++ [(t, e)]) s1 s h1 (hstep pre s0 t e s1 hpre hp (tstep_sound hs)) hr
+        have := ih (pre ++ [(t, e)]) s1 s h1 (hstep pre s0 t e s1 hpre hp (tstep_sound hs) h1) hr
         simpa using this
   intro sched s hr
   simpa using aux sched [] init s rfl h0 hr
@@ -282,6 +283,6 @@ theorem treach_induction {src0 : List Nat} {P : TState → Prop} (h0 : P (initSt
     ∀ s, TReach src0 s → P s := by
   intro s ⟨sched, hr⟩
   exact run_induction (P := fun _ s => P s) h0
-    (fun pre s t e s' hpre hp hs => hstep s t e s' ⟨pre, hpre⟩ hp hs) sched s hr
+    (fun pre s t e s' hpre hp hs _ => hstep s t e s' ⟨pre, hpre⟩ hp hs) sched s hr
 
 end Simpleline.Threads
